@@ -190,3 +190,210 @@ func VerifH_C02_ModUp() {
 	}
 	vCover("modup-reached")
 }
+
+// ModDown: x is a centred integer modulo QP given by its residues on both bases; the output must be the rounded
+// quotient x/P (resp. x/Q) up to an error of at most one, the same on every limb.
+//   kind 0: ModDownQPtoQ   kind 1: ModDownQPtoQNTT (transform stand-ins)   kind 2: ModDownQPtoP
+func vModDownCase(be *BasisExtender, levelQ, levelP, kind int) {
+	rq, rp := be.ringQ.AtLevel(levelQ), be.ringP.AtLevel(levelP)
+	Q, P := vModulusOf(rq), vModulusOf(rp)
+	x := vCentred("x", new(big.Int).Mul(Q, P))
+	inQ, inP := vRNSPoly(rq, x, 0), vRNSPoly(rp, x, 0)
+	var out Poly
+	var src, dst *Ring
+	var muc ModUpConstants
+	var buf Poly
+	var S *big.Int // modulus divided out
+	switch kind {
+	case 0:
+		out = rq.NewPoly()
+		be.ModDownQPtoQ(levelQ, levelP, inQ, inP, out)
+		src, dst, muc, buf, S = rp, rq, be.constantsPtoQ[levelP], be.buffP, P
+	case 1:
+		out = rq.NewPoly()
+		rq.NTT(inQ, inQ)
+		rp.NTT(inP, inP)
+		be.ModDownQPtoQNTT(levelQ, levelP, inQ, inP, out)
+		rq.INTT(out, out)
+		src, dst, muc, buf, S = rp, rq, be.constantsPtoQ[levelP], be.buffP, P
+	default:
+		out = rp.NewPoly()
+		be.ModDownQPtoP(levelQ, levelP, inQ, inP, out)
+		src, dst, muc, buf, S = rq, rp, be.constantsQtoP[levelQ], be.buffQ, Q
+	}
+	h := new(big.Int).Rsh(S, 1)
+	xs := new(big.Int).Mod(new(big.Int).Add(x, h), S) // the shifted residue of x modulo S whose words the extension sees
+	vReconstruct(src, dst, buf, muc, xs, "ModDown-CRT-reconstruction")
+	y := new(big.Int).Div(new(big.Int).Add(x, h), S) // rounded quotient
+	ok := [3]bool{true, true, true}
+	for i, s := range dst.SubRings[:dst.level+1] {
+		o := vB(out.Coeffs[i][0])
+		vAssert(out.Coeffs[i][0] < s.Modulus, "ModDown-output-reduced")
+		for e := -1; e <= 1; e++ {
+			want := new(big.Int).Add(y, big.NewInt(int64(e)))
+			ok[e+1] = ok[e+1] && vCong(new(big.Int).Mul(o, S), new(big.Int).Mul(want, S), s.Modulus)
+		}
+	}
+	vAssert(ok[0] || ok[1] || ok[2], "ModDown-rounded-quotient-up-to-one")
+}
+
+func VerifH_C02_ModDown() {
+	vConfig("backend", "int")
+	vStub("MRed", "contract:mred")
+	vStub("multSum", "call:vStubMultSum")
+	for _, cs := range VerifSetup_BEChains(vTier()) {
+		be := VerifSetup_BasisExtender(cs.N, cs.Q, cs.P)
+		for levelQ := 0; levelQ < len(cs.Q); levelQ++ {
+			for levelP := 0; levelP < len(cs.P); levelP++ {
+				if vTier() == 0 && levelP != len(cs.P)-1 && levelQ != len(cs.Q)-1 {
+					continue
+				}
+				vModDownCase(be, levelQ, levelP, 0)
+				vModDownCase(be, levelQ, levelP, 2)
+			}
+		}
+	}
+	vCover("moddown-reached")
+}
+
+func VerifH_C02_ModDownNTT() {
+	vConfig("backend", "int")
+	vStub("MRed", "contract:mred")
+	vStub("multSum", "call:vStubMultSum")
+	vStubTransforms()
+	for _, cs := range VerifSetup_BEChains(vTier()) {
+		be := VerifSetup_BasisExtender(cs.N, cs.Q, cs.P)
+		for levelQ := 0; levelQ < len(cs.Q); levelQ++ {
+			vModDownCase(be, levelQ, len(cs.P)-1, 1)
+		}
+	}
+	vUnstubTransforms()
+	vCover("moddownntt-reached")
+}
+
+// RNS gadget decomposition: digit d of x (mod Q) is the centred residue D of x modulo the d-th group Qg of nbPi
+// primes, returned on every limb outside the group and on the P limbs.  Required: every such limb ≡ D + e·Qg for one
+// e in {-1,0,1} with |D + e·Qg| < Qg (digit bounded by its digit modulus), and D ≡ x (mod Qg) – the latter makes the
+// digits recombine to x against any gadget vector that is 1 modulo its own group and 0 modulo the others (CRT).
+func VerifSetup_Decomposer(n int, q, p []uint64) *Decomposer {
+	rq, err := NewRing(n, q)
+	if err != nil {
+		panic(err)
+	}
+	rp, err := NewRing(n, p)
+	if err != nil {
+		panic(err)
+	}
+	return NewDecomposer(rq, rp)
+}
+
+func vDecomposeCase(dec *Decomposer, levelQ, levelP, digit int) {
+	rq, rp := dec.ringQ.AtLevel(levelQ), dec.ringP.AtLevel(levelP)
+	nbPi := levelP + 1
+	x := vBig("x")
+	vAssume(vInRange(x, big.NewInt(0), vModulusOf(rq)))
+	in := vRNSPoly(rq, x, 0)
+	oq, op := rq.NewPoly(), rp.NewPoly()
+	dec.DecomposeAndSplit(levelQ, levelP, nbPi, digit, in, oq, op)
+	st, ed := digit*nbPi, digit*nbPi+nbPi
+	if ed > levelQ+1 {
+		ed = levelQ + 1
+	}
+	Qg := big.NewInt(1)
+	var gmods []uint64
+	for i := st; i < ed; i++ {
+		Qg.Mul(Qg, vB(rq.SubRings[i].Modulus))
+		gmods = append(gmods, rq.SubRings[i].Modulus)
+	}
+	H := new(big.Int).Rsh(Qg, 1)
+	xs := new(big.Int).Mod(new(big.Int).Add(x, H), Qg)
+	D := new(big.Int).Sub(xs, H)
+	vAssert(vCong(D, x, gmods[0]), "Decompose-digit-congruent-to-input-modulo-its-group")
+	var targets []uint64
+	type limb struct {
+		w uint64
+		m uint64
+	}
+	var limbs []limb
+	for j := 0; j <= levelQ; j++ {
+		if ed-st > 1 && j >= st && j < ed {
+			continue // own limbs of a multi-prime digit are left to the caller
+		}
+		limbs = append(limbs, limb{oq.Coeffs[j][0], rq.SubRings[j].Modulus})
+		targets = append(targets, rq.SubRings[j].Modulus)
+	}
+	for j := 0; j <= levelP; j++ {
+		limbs = append(limbs, limb{op.Coeffs[j][0], rp.SubRings[j].Modulus})
+		targets = append(targets, rp.SubRings[j].Modulus)
+	}
+	if ed-st > 1 {
+		// ghost: CRT reconstruction over the group from the words reconstructRNSCentered computes
+		muc := dec.ModUpConstants[nbPi-2][digit][ed-st-2]
+		sum := new(big.Int)
+		for i, j := 0, st; j < ed; i, j = i+1, j+1 {
+			s := rq.SubRings[j]
+			hm := new(big.Int).Mod(H, vB(s.Modulus)).Uint64()
+			y := MRed(in.Coeffs[j][0]+hm, muc.qoverqiinvqi[i], s.Modulus, s.MRedConstant)
+			sum.Add(sum, new(big.Int).Mul(vB(y), new(big.Int).Div(Qg, vB(s.Modulus))))
+		}
+		vCRTLift(new(big.Int).Sub(sum, xs), gmods, targets, "Decompose-CRT-reconstruction")
+	}
+	ok := [3]bool{true, true, true}
+	for _, lb := range limbs {
+		for e := -1; e <= 1; e++ {
+			want := new(big.Int).Add(D, new(big.Int).Mul(big.NewInt(int64(e)), Qg))
+			bounded := new(big.Int).Abs(want).Cmp(Qg) < 0
+			ok[e+1] = ok[e+1] && bounded && vCong(vB(lb.w), want, lb.m)
+		}
+	}
+	// (the single-prime branch represents the residue (q-1)/2 as -(q+1)/2: congruent and below q, hence the same
+	// statement for both branches)
+	vAssert(ok[0] || ok[1] || ok[2], "Decompose-digit-on-every-limb-bounded-by-digit-modulus")
+}
+
+func VerifH_C02_Decompose() {
+	vConfig("backend", "int")
+	vStub("MRed", "contract:mred")
+	vStub("multSum", "call:vStubMultSum")
+	for _, cs := range VerifSetup_BEChains(vTier()) {
+		if len(cs.P) < 2 {
+			continue
+		}
+		dec := VerifSetup_Decomposer(cs.N, cs.Q, cs.P)
+		levelP := len(cs.P) - 1
+		for levelQ := 0; levelQ < len(cs.Q); levelQ++ {
+			nd := (levelQ + levelP + 1) / (levelP + 1)
+			for d := 0; d < nd; d++ {
+				vDecomposeCase(dec, levelQ, levelP, d)
+			}
+		}
+	}
+	vCover("decompose-reached")
+}
+
+// Power-of-two gadget decomposition (ring.MaskVec as used by the key switch): digits of width pw2 of a coefficient
+// c < q recombine to c against the powers 2^(k·pw2), each digit is below 2^pw2, for ceil(bitlen(q)/pw2) digits.
+func VerifH_C02_PowerOfTwoDigits() {
+	for _, q := range VerifSetup_Moduli(vTier()) {
+		for _, pw2 := range []int{1, 7, 16, 30, 45, 60} {
+			bl := 0
+			for t := q; t > 0; t >>= 1 {
+				bl++
+			}
+			nd := (bl + pw2 - 1) / pw2
+			in := make([]uint64, 8)
+			in[3] = vU64("c")
+			vAssume(in[3] < q)
+			mask := uint64(1)<<uint(pw2) - 1
+			var sum uint64
+			out := make([]uint64, 8)
+			for k := 0; k < nd; k++ {
+				MaskVec(in, k*pw2, mask, out)
+				vAssert(out[3] <= mask, "pow2-digit-below-base")
+				sum += out[3] << uint(k*pw2)
+			}
+			vAssert(sum == in[3], "pow2-digits-recombine")
+		}
+	}
+	vCover("pow2-reached")
+}
